@@ -223,6 +223,9 @@ def run(task: dict) -> dict:
                 if fails:
                     vars_by_name = {symx.var_name(v): v for v in famcheck._vars_of(text)}
                     status, other = core.classify_failure(pr.pc, regions.get(key), vars_by_name)
+                    need = (regions.get(key) or {}).get("detail_contains")
+                    if status == "known" and need and not all(need in f[1] for f in fails):
+                        status = "new"  # the listed input now fails in a different way
                     wit = w
                     if status == "new" and other and isinstance(text, SymStr):
                         wit = "".join(chr(c) if isinstance(c, int) else chr(other.get(symx.var_name(c), pr.model[symx.var_name(c)])) for c in text.ch)
@@ -255,6 +258,22 @@ def _replay(spec):
 
 
 replay_ext.HANDLERS["c10"] = _replay
+
+
+SIZE_SPECIALS = {
+    "count-5000-digits": 'r = { "a"{' + "9" * 5000 + "} }",
+    "slice-5000-digits": "r = { PEEK[" + "9" * 5000 + "..] }",
+    "parens-3000": "r = { " + "(" * 3000 + '"a"' + ")" * 3000 + " }",
+    "not-3000": "r = { " + "!" * 3000 + '"a" }',
+    "push-1500": "r = { " + "PUSH(" * 1500 + '"a"' + ")" * 1500 + " }",
+    "sequence-5000-terms": "r = { " + " ~ ".join(['"a"'] * 5000) + " }",
+    "choice-5000-terms": "r = { " + " | ".join(['"a"'] * 5000) + " }",
+    "postfix-5000": 'r = { "a"' + "?" * 5000 + " }",
+    "rules-3000": "\n".join(f"r{i} = {{ r{i + 1} }}" for i in range(3000)) + '\nr3000 = { "a" }',
+    "string-100000": 'r = { "' + "a" * 100000 + '" }',
+    "comment-100000": "/*" + "x" * 100000 + '*/ r = { "a" }',
+    "nested-comment-3000": "/*" * 3000 + "*/" * 3000 + ' r = { "a" }',
+}
 
 
 def texts_for(prop: str, tier: str, seed: int):
@@ -313,6 +332,10 @@ def texts_for(prop: str, tier: str, seed: int):
                     out.append((f"trunc{si}@{i}+1", [t, 1]))
         for t in ("", " ", "\n", "// c", "/* c */", "/* c", "//! d", "/// d", "r", "r =", "r = {", "r = { }", "r = { undefined }", "r = { r }", 'r = { "a" }\nr = { "b" }', "ANY = { \"a\" }", "r = { PEEK[9..] }", "r = { a{0} }", "r = { a{3,1} }", "r = { \"\"* }", "a = { (!b ~ ANY)* }", "a = { (!b ~ ANY)* }\nb = { b }", "a = { 'z'..'a' | \"x\" }", "a = { 'z'..'a' }", "a = { (!(\"x\" | c) ~ ANY)* }\nc = _{ c | \"y\" }", "WHITESPACE = { \"\" }\nr = { \"a\" ~ \"b\" }"):
             out.append((f"special/{t!r}", [t]))
+        # size: nothing in the statement bounds the text ("every input string whatsoever"); these are single
+        # concrete texts, far outside the symbolic windows, kept because each exercises a resource limit
+        for name, t in SIZE_SPECIALS.items():
+            out.append((f"size/{name}", [t]))
     return out
 
 
